@@ -78,16 +78,37 @@ def generate(R, tier, focus):
     ops = []
     n_handles = 1
     default_filters = [gen_statement(R, events)[0] for _ in range(R.randint(1, 3))]
+    # a second region (a sub-lattice of the first) so that "the region given to the call" matters
+    region2 = copy.deepcopy(region)
+    xs = [o[0] for o in region['origins']]
+    ys = [o[1] for o in region['origins']]
+    protected = {(min(xs), min(ys)), (max(xs), max(ys))}      # keep the bounding box (and its rows / columns)
+    cand = [i for i, o in enumerate(region2['origins']) if tuple(o) not in protected]
+    if cand:
+        drop = set(R.sample(cand, R.randint(1, max(1, len(cand) // 2))))
+        region2['holes'] = region2['holes'] + [o for i, o in enumerate(region2['origins']) if i in drop]
+        region2['origins'] = [o for i, o in enumerate(region2['origins']) if i not in drop]
+    bind_region = R.choice((0, 0, 1, 2))
+    history = [(list(default_filters), 'list')]
     for _ in range(n_ops):
         x = R.random()
         h = R.randrange(n_handles)
         actor = R.randint(0, 2)
         if x < 0.4:
-            k = R.randint(1, 4)
-            sts = [gen_statement(R, events)[0] for _ in range(k)]
-            form = R.choice(('list', 'tuple', 'str')) if k == 1 else R.choice(('list', 'tuple'))
-            if k == 1 and R.random() < 0.6:
-                form = 'str'
+            if R.random() < 0.3:
+                # the same statements as an earlier call (or as catalog.filters): history-dependent paths
+                sts, form = R.choice(history)
+                sts = list(sts)
+                k = len(sts)
+                if k > 1 and form == 'str':
+                    form = 'list'
+            else:
+                k = R.randint(1, 4)
+                sts = [gen_statement(R, events)[0] for _ in range(k)]
+                form = R.choice(('list', 'tuple', 'str')) if k == 1 else R.choice(('list', 'tuple'))
+                if k == 1 and R.random() < 0.6:
+                    form = 'str'
+                history.append((list(sts), form))
             inp = R.random() < 0.5
             ops.append({'op': 'FILTER', 'h': h, 'stmts': sts, 'form': form, 'in_place': inp, 'actor': actor})
             if not inp:
@@ -95,7 +116,7 @@ def generate(R, tier, focus):
         elif x < 0.5:
             inp = R.random() < 0.5
             ops.append({'op': 'FILTER_SPATIAL', 'h': h, 'in_place': inp, 'actor': actor,
-                        'region_arg': R.random() < 0.7})
+                        'region_arg': R.choice((0, 1, 1, 2, 2))})
             if not inp:
                 n_handles += 1
         elif x < 0.58:
@@ -119,7 +140,8 @@ def generate(R, tier, focus):
             k = R.randint(1, 3)
             ops.append({'op': 'LOAD_APPLY', 'h': h, 'stmts': [gen_statement(R, events)[0] for _ in range(k)],
                         'with_region': R.random() < 0.6, 'actor': actor})
-    return {'engine': 'catsim', 'region': region, 'mags': mags, 'events': events, 'ops': ops,
+    return {'engine': 'catsim', 'region': region, 'region2': region2, 'bind_region': bind_region,
+            'mags': mags, 'events': events, 'ops': ops,
             'default_filters': default_filters, 'tz': R.choice(TZ_CHOICES), 'clock_us': R.randint(0, 4 * 10 ** 15)}
 
 
@@ -188,13 +210,17 @@ def _execute(scn, ctx, store, clock):
     import csep
     region_lit = scn['region']
     region = build.make_region(region_lit, scn['mags'])
+    regions_lit = {1: scn['region'], 2: scn.get('region2', scn['region'])}
+    regions = {1: region, 2: build.make_region(regions_lit[2], scn['mags'])}
+    bind = scn.get('bind_region', 0)
     clock.auto_step_us = 999
     base_rows = model_rows(scn['events'])
 
     def fresh(rows=None):
         evs = scn['events'] if rows is None else None
         if rows is None:
-            return build.make_catalog(evs, region=None, name='simcat', filters=list(scn['default_filters']))
+            return build.make_catalog(evs, region=regions.get(bind), name='simcat',
+                                      filters=list(scn['default_filters']))
         return build.make_catalog([list(r) for r in rows], region=None, name='simcat')
 
     def clone(rows):
@@ -204,6 +230,7 @@ def _execute(scn, ctx, store, clock):
 
     handles = [fresh()]
     models_ = [list(base_rows)]
+    bound = [bind]                 # which region each handle has bound (0 = none)
     last_call = [None]
     if not same_rows(rows_of(handles[0]), models_[0]):
         ctx.count('construction_mismatch')       # construction / dtype limits are C14's business
@@ -225,8 +252,8 @@ def _execute(scn, ctx, store, clock):
                 return False
         return True
 
-    def in_region_rows(rows):
-        return [r for r in rows if _inside([None, None, r[2], r[3]], region_lit)]
+    def in_region_rows(rows, which=1):
+        return [r for r in rows if _inside([None, None, r[2], r[3]], regions_lit[which])]
 
     for oi, op in enumerate(scn['ops']):
         kind = op['op']
@@ -270,6 +297,7 @@ def _execute(scn, ctx, store, clock):
                     return
                 handles.append(r[1])
                 models_.append(want)
+                bound.append(bound[hi])
                 last_call[0] = (len(handles) - 1, 'filter', arg)
         elif kind == 'FILTER_DEFAULT':
             if hi != 0 and not getattr(h, 'filters', None):
@@ -286,21 +314,30 @@ def _execute(scn, ctx, store, clock):
             last_call[0] = (hi, 'filter', None)
         elif kind == 'FILTER_SPATIAL':
             label = 'FILTER_SPATIAL:%s' % ('in_place' if op['in_place'] else 'copy')
-            if op['region_arg'] or getattr(h, 'region', None) is None:
-                r = call(h.filter_spatial, region, in_place=op['in_place'])
+            ra = op['region_arg']
+            ra = {True: 1, False: 0}.get(ra, ra) if isinstance(ra, bool) else ra
+            if ra == 0 and bound[hi] == 0:
+                ra = 1
+            use = ra if ra else bound[hi]
+            if ra and bound[hi] and ra != bound[hi]:
+                ctx.count('rare:spatial_filter_with_other_region_than_bound')
+            if ra:
+                r = call(h.filter_spatial, regions[ra], in_place=op['in_place'])
             else:
                 r = call(h.filter_spatial, in_place=op['in_place'])
             if r[0] != 'ok':
                 ctx.violate('C04', 'exception', '%s:%s' % (label, r[1]), {'op': oi, 'msg': r[2]})
                 return
-            want = in_region_rows(m)
+            want = in_region_rows(m, use)
             if len(want) != len(m):
                 ctx.count('rare:spatial_filter_removed_events')
+            # the receiver has the region of the call bound afterwards (documented: "update the region")
+            bound[hi] = use
             if op['in_place']:
                 if r[1] is not h:
                     ctx.violate('C04', 'in_place', 'spatial:in_place=True-returns-other-object', {'op': oi})
                 models_[hi] = want
-                last_call[0] = (hi, 'spatial', None)
+                last_call[0] = (hi, 'spatial', use)
             else:
                 if r[1] is h:
                     ctx.violate('C04', 'in_place', 'spatial:in_place=False-returns-receiver', {'op': oi})
@@ -310,7 +347,8 @@ def _execute(scn, ctx, store, clock):
                     return
                 handles.append(r[1])
                 models_.append(want)
-                last_call[0] = (len(handles) - 1, 'spatial', None)
+                bound.append(use)
+                last_call[0] = (len(handles) - 1, 'spatial', use)
         elif kind == 'REPEAT':
             lc = last_call[0]
             if lc is None or lc[0] >= len(handles):
@@ -320,7 +358,7 @@ def _execute(scn, ctx, store, clock):
             if lc[1] == 'filter':
                 r = call(t.filter, lc[2]) if lc[2] is not None else call(t.filter)
             else:
-                r = call(t.filter_spatial, region)
+                r = call(t.filter_spatial, regions[lc[2] or 1])
             if r[0] != 'ok':
                 ctx.violate('C04', 'exception', 'REPEAT:%s' % r[1], {'op': oi, 'msg': r[2]})
                 return
